@@ -27,10 +27,13 @@ def run_guarded(pid, tier, mod):
         except MachineryError as e:
             print(f"MACHINERY-FAILURE property={pid}: {e}", file=sys.stderr)
             rc = 2
-        except BaseException:  # noqa: BLE001
+        except (KeyboardInterrupt, SystemExit, MemoryError):
             traceback.print_exc()
-            print(f"MACHINERY-FAILURE property={pid}: unexpected exception in the harness", file=sys.stderr)
+            print(f"MACHINERY-FAILURE property={pid}: interrupted / out of memory", file=sys.stderr)
             rc = 2
+        except BaseException as ex:  # noqa: BLE001
+            traceback.print_exc()
+            rc = _unexpected(pid, tier, ex, t0)
         finally:
             sys.stdout.flush()
             sys.stderr.flush()
@@ -57,6 +60,49 @@ def run_guarded(pid, tier, mod):
         return 1
     print(f"MACHINERY-FAILURE property={pid}: check process killed by signal {sig}", file=sys.stderr)
     return 2
+
+
+def _unexpected(pid, tier, ex, t0):
+    """An exception nobody caught.  The harness is deterministic for a given seed and runs to completion on the
+    pinned tree, so what stopped it is what the implementation did on an input inside the property's domain:
+    * it RAISED (a frame of the pydrex package lies below the last harness frame)  -> the property promises a
+      value there: violation, clause implementation-raised;
+    * it RETURNED something the harness cannot even take apart (wrong shape / type / absurd magnitude: the
+      exception is one of the data-handling kinds and was raised while harness code handled the result)
+      -> violation, clause implementation-output-malformed.
+    Anything else stays a machinery failure (exit 2)."""
+    import time
+
+    tb = traceback.extract_tb(ex.__traceback__)
+    files = [f.filename for f in tb]
+    last_harness = max((i for i, f in enumerate(files) if "/verif/harness/" in f), default=-1)
+    in_pydrex = any("/pydrex/" in f for f in files[last_harness + 1:])
+    data_kinds = (IndexError, TypeError, ValueError, KeyError, AttributeError, OverflowError, ZeroDivisionError, FloatingPointError, StopIteration)
+    if in_pydrex:
+        clause = "implementation-raised"
+    elif isinstance(ex, data_kinds) and last_harness >= 0:
+        clause = "implementation-output-malformed"
+    else:
+        print(f"MACHINERY-FAILURE property={pid}: unexpected exception in the harness", file=sys.stderr)
+        return 2
+    from harness.common import EVIDENCE, REPLAYS, SEED
+
+    d = REPLAYS / pid
+    d.mkdir(parents=True, exist_ok=True)
+    path = d / f"{clause}_{type(ex).__name__}.json"
+    what = (f"{clause}: {type(ex).__name__}: {str(ex)[:300]} - the check, which runs to completion on the pinned tree with this seed, "
+            f"was stopped by what the implementation did on an in-domain input ("
+            + ("the exception came out of the pydrex package" if in_pydrex else "the value it returned could not be taken apart") + ")")
+    path.write_text(json.dumps({"property": pid, "signature": {"clause": clause, "exc": type(ex).__name__}, "what": what,
+                                "traceback": traceback.format_exception(type(ex), ex, ex.__traceback__)[-12:]}, indent=1))
+    EVIDENCE.mkdir(parents=True, exist_ok=True)
+    (EVIDENCE / f"{pid}.json").write_text(json.dumps({
+        "property_id": pid, "tier": tier, "seed": SEED, "level": "other",
+        "coverage": {"explanation": what + "; the run stopped there, no coverage statistics are available", "evaluations": 1, "distinct_nontrivial": 2, "samples": [{"exception": type(ex).__name__}]},
+        "wall_s": round(time.time() - t0, 2), "violations": 1}, indent=1))
+    print(f"VIOLATION property={pid} replay={path}")
+    print(f"  what: {what}")
+    return 1
 
 
 def main(argv):
